@@ -77,7 +77,9 @@ static Token *preprocess2(Token *tok);
 static Macro *find_macro(Token *tok);
 
 static bool is_hash(Token *tok) {
-  return tok->at_bol && equal(tok, "#");
+  // [https://www.sigbus.info/n1570#6.10.3.4p3] A `#` that results
+  // from macro replacement is not a directive even if it looks like one.
+  return tok->at_bol && !tok->origin && equal(tok, "#");
 }
 
 // Some preprocessor directives such as #include allow extraneous
